@@ -381,7 +381,7 @@ func genC10(c *Ctx) {
 	{
 		lists, _ := veryLongUnitLists(r)
 		for li, txs := range lists {
-			if c.tier == "quick" && li >= 3 && li%3 != int(r.U64()%3) {
+			if c.tier == "quick" && li >= 5 && li%3 != int(r.U64()%3) {
 				continue
 			}
 			ns := share.TxNamespace.Bytes()
@@ -516,6 +516,10 @@ func genC08(c *Ctx) {
 		nontriv := false
 		if r.Bool(30) {
 			items = append(items, "r:"+strconv.Itoa(r.Intn(4)))
+		} else if r.Intn(8) == 0 {
+			// a request for ZERO namespace padding shares before anything is written (accepted, writes nothing)
+			items = append(items, "n:0")
+			c.count("zero_padding_on_empty_splitter")
 		}
 		k := 1 + r.Intn(5)
 		if i < len(sparseHot)*2 {
@@ -745,6 +749,19 @@ func genC09(c *Ctx) {
 		var txs [][]byte
 		if i < nRandom {
 			txs = compactTxList(c, r, 1+r.Intn(12))
+			if i%16 == 11 {
+				// a transaction on a length-prefix width boundary (126..130 bytes) written when the pending share
+				// has just about that much room left: every combination of length and room around it
+				L := 126 + (i/16)%5
+				room := L - 1 + (i/80)%6 // free bytes in the pending first share before this transaction
+				lead := 474 - room       // delimited bytes written before it
+				if lead >= 130 {
+					txs = [][]byte{r.Bytes(lead - 2), r.Bytes(L), r.Bytes(50)}
+				} else if lead >= 2 {
+					txs = [][]byte{r.Bytes(lead - 1), r.Bytes(L), r.Bytes(50)}
+				}
+				c.count("prefix_width_boundary_tx_near_share_end")
+			}
 			if i%16 == 7 {
 				// the sequence fills its last share exactly and that share holds nothing but ZERO bytes of the
 				// last transaction (a share that looks like the zero fill behind a shorter sequence)
@@ -783,15 +800,19 @@ func genC09(c *Ctx) {
 				c.count("compact_other_share_versions")
 			}
 		}
-		// oracle
-		css := share.NewCompactShareSplitter(nsOf(ns), 0)
-		total := 0
-		for _, t := range txs {
-			_ = css.WriteTx(t)
-			total += len(refDelimited(t))
-		}
-		shs, err := css.Export()
+		// oracle (a panic of the writer on this list is a finding with the list as witness)
 		wit := map[string]any{"ns": hx(ns[28:]), "tx_lens": lensOf(txs)}
+		var shs []share.Share
+		var err error
+		total := 0
+		c.guard("CompactShareSplitter", wit, func() {
+			css := share.NewCompactShareSplitter(nsOf(ns), 0)
+			for _, t := range txs {
+				_ = css.WriteTx(t)
+				total += len(refDelimited(t))
+			}
+			shs, err = css.Export()
+		})
 		if !c.check(err == nil && len(shs) > 0, "CompactShareSplitter.Export", "error", wit) {
 			continue
 		}
@@ -867,8 +888,22 @@ func c09NamespaceViews(c *Ctx, r *Rng) {
 func veryLongUnitLists(r *Rng) ([][][]byte, []int) {
 	var lists [][][]byte
 	var pos []int
-	for _, size := range []int{70000, 1 << 20, 1<<20 + 12345, 1<<21 + 3} { // the first three lists (70 000 bytes) always run
+	// the first five lists always run: 70 000 bytes at the three alignments, and 2^21+1 / 2^21+2 bytes (four-byte
+	// prefix whose first three bytes, cut off by the share end, would read as the length 1 / 2)
+	type vl struct{ size, back int }
+	var plan []vl
+	for back := 1; back <= 3; back++ {
+		plan = append(plan, vl{70000, back})
+	}
+	plan = append(plan, vl{1<<21 + 1, 3}, vl{1<<21 + 2, 3})
+	for _, size := range []int{1 << 20, 1<<20 + 12345, 1<<21 + 3} {
 		for back := 1; back <= 3; back++ {
+			plan = append(plan, vl{size, back})
+		}
+	}
+	for _, pl := range plan {
+		size, back := pl.size, pl.back
+		{
 			lead := 474 - back // stream bytes before the long unit
 			first := r.Bytes(lead - 2)
 			if lead-2 < 128 {
@@ -928,7 +963,7 @@ func genC11(c *Ctx) {
 	{
 		lists, pos := veryLongUnitLists(r)
 		for li, txs := range lists {
-			if c.tier == "quick" && li >= 3 && li%3 != int(r.U64()%3) {
+			if c.tier == "quick" && li >= 5 && li%3 != int(r.U64()%3) {
 				continue
 			}
 			css := share.NewCompactShareSplitter(share.TxNamespace, 0)
